@@ -32,6 +32,8 @@ pub struct St {
     pub cur: usize,
     pub hs: HashMap<String, H>,
     pub wb: other::Wb,
+    /// implementation-side information lines printed after the op line (ignored by the model)
+    pub info: Vec<String>,
 }
 
 fn classify(msg: &str) -> &'static str {
@@ -224,7 +226,7 @@ macro_rules! probe_key {
 
 impl St {
     pub fn new() -> St {
-        St { worlds: vec![Some(Wa::new())], cur: 0, hs: HashMap::new(), wb: other::Wb::new() }
+        St { worlds: vec![Some(Wa::new())], cur: 0, hs: HashMap::new(), wb: other::Wb::new(), info: Vec::new() }
     }
 
     fn w(&mut self) -> Option<&mut Wa> {
@@ -244,10 +246,15 @@ impl St {
         if !errs.is_empty() {
             obs.push_str(&format!(" REGISTRY-ERROR[{}]", errs.join("; ")));
         }
-        match self.w() {
+        let mut out = match self.w() {
             Some(w) => format!("{} # {}", obs, summary(w)),
             None => format!("{} # dropped", obs),
+        };
+        for l in self.info.drain(..) {
+            out.push('\n');
+            out.push_str(&l);
         }
+        out
     }
 
     fn get_h(&self, name: &str) -> Option<H> {
@@ -820,6 +827,10 @@ impl St {
                 let Some(h) = self.get_h(t[1]) else { return "undef".into() };
                 conv(h)
             }
+            "cmp" => {
+                let (Some(h1), Some(h2)) = (self.get_h(t[1]), self.get_h(t[2])) else { return "undef".into() };
+                cmp(h1, h2)
+            }
             "end" => {
                 // registry balance: tokens still alive that do not belong to the foreign world Wb
                 let (live, zlive) = REG.with(|r| {
@@ -834,9 +845,12 @@ impl St {
                 let Some(w) = self.w() else { return "no-world".into() };
                 let w: &Wa = w;
                 let tr = std::cell::RefCell::new(Vec::<String>::new());
-                let r = guard(|| nest::exec_nodes(&hs, w, &nodes, &tr));
+                let ev = std::cell::RefCell::new(Vec::<String>::new());
+                let r = guard(|| nest::exec_nodes(&hs, w, &nodes, &tr, &ev));
                 let sweep = nest::sweep(w);
-                format!("[{}] end={} sweep={}", tr.borrow().join(" "), match r { Ok(()) => "ok".to_string(), Err(c) => format!("panic:{}", c) }, if sweep { "ok" } else { "BAD" })
+                let out = format!("[{}] end={} sweep={}", tr.borrow().join(" "), match r { Ok(()) => "ok".to_string(), Err(c) => format!("panic:{}", c) }, if sweep { "ok" } else { "BAD" });
+                self.info.push(format!("#nest {}", ev.borrow().join(" | ")));
+                out
             }
             _ => "bad-op".into(),
         }
@@ -949,6 +963,52 @@ fn conv(h: H) -> String {
     out.join(" ")
 }
 
+/// C14: Eq / Hash of a PAIR of handles, dynamically typed and typed for every archetype
+/// both convert to.  Per comparison three characters: `==`, `!=`, and (only when equal)
+/// whether the hashes agree.
+fn cmp(h1: H, h2: H) -> String {
+    use std::collections::hash_map::DefaultHasher;
+    use std::hash::{Hash, Hasher};
+    fn hash_of<T: Hash>(t: &T) -> u64 {
+        let mut s = DefaultHasher::new();
+        t.hash(&mut s);
+        s.finish()
+    }
+    fn tri<T: PartialEq + Hash>(x: &T, y: &T) -> String {
+        let eq = x == y;
+        #[allow(clippy::nonminimal_bool)]
+        let ne = x != y;
+        format!("{}{}{}", eq as u8, ne as u8, if eq { ((hash_of(x) == hash_of(y)) as u8).to_string() } else { "-".to_string() })
+    }
+    match (h1, h2) {
+        (H::Ent { any: x, .. }, H::Ent { any: y, .. }) => {
+            let mut ty = Vec::new();
+            for a in 0..NARCH {
+                ty.push(dispatch!(a, A => {
+                    match (Entity::<A>::try_from(x), Entity::<A>::try_from(y)) {
+                        (Ok(p), Ok(q)) => tri(&p, &q),
+                        _ => "-".to_string(),
+                    }
+                }));
+            }
+            format!("k=e a={} b={} any={} t=[{}]", fmt_any(x), fmt_any(y), tri(&x, &y), ty.join(" "))
+        }
+        (H::Dir { any: x, .. }, H::Dir { any: y, .. }) => {
+            let mut ty = Vec::new();
+            for a in 0..NARCH {
+                ty.push(dispatch!(a, A => {
+                    match (EntityDirect::<A>::try_from(x), EntityDirect::<A>::try_from(y)) {
+                        (Ok(p), Ok(q)) => tri(&p, &q),
+                        _ => "-".to_string(),
+                    }
+                }));
+            }
+            format!("k=d a={} b={} any={} t=[{}]", fmt_dir(x), fmt_dir(y), tri(&x, &y), ty.join(" "))
+        }
+        _ => "k=x".to_string(),
+    }
+}
+
 pub fn header() -> String {
     let mut s = String::new();
     let feats = [
@@ -1009,8 +1069,13 @@ fn main() {
                     println!("seq 0");
                 }
                 let op = line.split(" => ").next().unwrap();
+                {
+                    use std::io::Write;
+                    print!("{} => ", op);
+                    let _ = std::io::stdout().flush();
+                }
                 let obs = st.as_mut().unwrap().exec(op);
-                println!("{} => {}", op, obs);
+                println!("{}", obs);
             }
         }
         Some("gen") => {
